@@ -577,8 +577,9 @@ func C13(c *Ctx) {
 		// constants it is compared with: every way on must end in an error return before the next node is visited
 		tv := typeLoad.(ssa.Value)
 		tb := typeLoad.(ssa.Instruction).Block()
+		tfn := typeLoad.(ssa.Instruction).Parent()
 		var hdr *ssa.BasicBlock
-		if L := flow.InnermostLoop(flow.Loops(compile), tb); L != nil {
+		if L := flow.InnermostLoop(flow.Loops(tfn), tb); L != nil {
 			hdr = L.Header
 		}
 		ncmp := 0
@@ -597,9 +598,16 @@ func C13(c *Ctx) {
 			}
 			succs := x.Succs
 			if iff, isIf := last.(*ssa.If); isIf {
-				if bo, isB := iff.Cond.(*ssa.BinOp); isB && (bo.X == tv || bo.Y == tv) {
+				isTV := func(v ssa.Value) bool {
+					if v == tv {
+						return true
+					}
+					_, is := isFieldLoad(v, "core", "Branches", "Type") // the field read again
+					return is
+				}
+				if bo, isB := iff.Cond.(*ssa.BinOp); isB && (isTV(bo.X) || isTV(bo.Y)) {
 					other := bo.Y
-					if bo.Y == tv {
+					if isTV(bo.Y) {
 						other = bo.X
 					}
 					if _, isC := other.(*ssa.Const); isC {
@@ -627,6 +635,27 @@ func C13(c *Ctx) {
 		}
 		if ncmp == 0 {
 			okType = false
+		}
+		// the validation may sit in a helper: its error has to be handed on up to Compile
+		for fn, depth := tfn, 0; fn != compile && okType; depth++ {
+			sites := callSitesOf(fn, closure)
+			if len(sites) != 1 || depth > 3 {
+				okType = false
+				break
+			}
+			cl, isCl := sites[0].(*ssa.Call)
+			if !isCl {
+				okType = false
+				break
+			}
+			var errv ssa.Value = cl
+			if tup, isT := cl.Type().(*types.Tuple); isT {
+				errv = callResults(cl)[tup.Len()-1]
+			}
+			if !errPropagated(cl.Parent(), errv) {
+				okType = false
+			}
+			fn = cl.Parent()
 		}
 	}
 	c.R.Check(okType, "C13-R4", "Compile: unknown branching type rejected", c.P.Pos(compile.Pos()), "a type equal to none of the compared constants can only reach an error return", "an unknown branching type is accepted at compile time")
@@ -703,14 +732,8 @@ func C13(c *Ctx) {
 	})
 	// unknown syntax: the default parser's switch default returns an error
 	okSyn := false
-	if init := c.P.SSAPkgs[prog.Abs("core")].Members["DefaultPatternParser"]; init != nil {
-		for _, f := range c.P.FuncsIn("core") {
-			if f.Parent() == nil || !strings.HasPrefix(f.Parent().Name(), "init") {
-				continue
-			}
-			if f.Signature.Params().Len() != 2 || f.Signature.Results().Len() != 2 {
-				continue
-			}
+	if pf := defaultPatternParserFn(c); pf != nil {
+		for _, f := range []*ssa.Function{pf} {
 			c.R.Fn(fname(f))
 			// a return of a non-nil error that is not an unmarshal error: errors.New with constant prefix
 			for _, b := range f.Blocks {
@@ -719,7 +742,7 @@ func C13(c *Ctx) {
 						// reached only when no syntax constant matched
 						neg := 0
 						for _, fa := range flow.FactsAt(b) {
-							if bo, ok := fa.Cond.(*ssa.BinOp); ok && bo.Op == token.EQL && !fa.True {
+							if bo, ok := fa.Cond.(*ssa.BinOp); ok && ((bo.Op == token.EQL && !fa.True) || (bo.Op == token.NEQ && fa.True)) {
 								if _, isS := ssau.ConstString(bo.Y); isS {
 									neg++
 								}
@@ -740,26 +763,37 @@ func C13(c *Ctx) {
 	for _, f := range c.P.FuncsIn("sio", "cmd/mcrew", "cmd/msimple", "cmd/sheensio", "sio/siostd", "sio/siomq") {
 		// does f unmarshal into a core.Spec (directly or inside crew.SpecSource)?
 		var specAllocs []*ssa.Alloc
-		ssau.Instrs(f, func(in ssa.Instruction) {
-			ci, ok := in.(ssa.CallInstruction)
-			if !ok {
-				return
+		// (the decode may sit in a helper of the same package that is handed the address of f's variable)
+		lscope := []*ssa.Function{f}
+		for _, g := range pkgClosure(f) {
+			if g != f && prog.PkgOf(g) == prog.PkgOf(f) {
+				lscope = append(lscope, g)
 			}
-			n := ssau.CalleeName(ci)
-			if !strings.HasSuffix(n, ".Unmarshal") {
-				return
-			}
-			dst := ci.Common().Args[len(ci.Common().Args)-1]
-			if mi, ok := dst.(*ssa.MakeInterface); ok {
-				dst = mi.X
-			}
-			if al, ok := dst.(*ssa.Alloc); ok {
-				t := al.Type().Underlying().(*types.Pointer).Elem()
-				if ssau.TypeIs(t, prog.Abs("core"), "Spec") || ssau.TypeIs(t, prog.Abs("crew"), "SpecSource") {
-					specAllocs = append(specAllocs, al)
+		}
+		for _, g := range lscope {
+			ssau.Instrs(g, func(in ssa.Instruction) {
+				ci, ok := in.(ssa.CallInstruction)
+				if !ok {
+					return
 				}
-			}
-		})
+				n := ssau.CalleeName(ci)
+				if !strings.HasSuffix(n, ".Unmarshal") {
+					return
+				}
+				dst := ci.Common().Args[len(ci.Common().Args)-1]
+				if mi, ok := dst.(*ssa.MakeInterface); ok {
+					dst = mi.X
+				}
+				for _, d := range deepDefs(dst, lscope) {
+					if al, ok := d.(*ssa.Alloc); ok && al.Parent() == f {
+						t := al.Type().Underlying().(*types.Pointer).Elem()
+						if ssau.TypeIs(t, prog.Abs("core"), "Spec") || ssau.TypeIs(t, prog.Abs("crew"), "SpecSource") {
+							specAllocs = append(specAllocs, al)
+						}
+					}
+				}
+			})
+		}
 		if len(specAllocs) == 0 {
 			continue
 		}
